@@ -261,6 +261,9 @@ impl Uf {
     pub fn union(&mut self, a: usize, b: usize) -> bool { let (a, b) = (self.find(a), self.find(b)); if a != b { self.0[a.max(b)] = a.min(b); } a != b }
 }
 
+/// a sized word of a usage other than bytesN/num/uint: the only evidence `merge` pushes down into a packed encoding's first span
+fn special_sized(t: &T) -> bool { matches!(t, T::Word(Some(_), u) if !matches!(u, WordUse::Bytes | WordUse::Numeric | WordUse::UnsignedNumeric)) }
+
 /// D13 — the shape on which the current tree's `unify` never terminates (see `c14_d13_*` below): a class holds a
 /// packed encoding whose first listed span starts at bit 0 and is typed by a variable OF THAT SAME CLASS, together
 /// with a word of exactly that span's width whose usage is not bytesN/num/uint.  `merge` (Packed x Word, last arm)
@@ -271,15 +274,13 @@ impl Uf {
 /// a "special" usage at all, and the graph "class -> classes of the spans at bit 0 of its (flattened) packed
 /// evidence, span -> shorter spans starting at the same bit" — restricted to spans exactly as wide as such a word —
 /// must have a cycle.
-fn special_sized(t: &T) -> bool { matches!(t, T::Word(Some(_), u) if !matches!(u, WordUse::Bytes | WordUse::Numeric | WordUse::UnsignedNumeric)) }
-
 fn may_hit_d13(n: usize, js: &[J]) -> bool {
     let widths: BTreeSet<usize> = js.iter().filter_map(|j| match j { J::Is(_, t @ T::Word(Some(w), _)) if special_sized(t) => Some(*w), _ => None }).collect();
     if widths.is_empty() { return false; }
     let mut uf = Uf::new(n);
     for j in js { if let J::Eq(a, b) = j { uf.union(*a, *b); } }
     let is: Vec<(usize, &T)> = js.iter().filter_map(|j| if let J::Is(v, t) = j { Some((*v, t)) } else { None }).collect();
-    // flattened pool of (variable, absolute offset, size) of the packed evidence of class `c`; None = cyclic nesting
+    // flattened pool of (variable, absolute offset, size) of the packed evidence of class `c`; false = nested too deep (treated as dangerous)
     fn pool(c: usize, base: usize, depth: usize, path: &mut Vec<usize>, uf: &mut Uf, is: &[(usize, &T)], out: &mut Vec<(usize, usize, usize)>) -> bool {
         if depth > 6 { return false; }
         if path.contains(&c) { return true; } // cyclic nesting is only dangerous through bit-0 spans: the graph below decides
@@ -521,7 +522,7 @@ fn run_and_report(n: usize, js: &[J], budget: Duration, reported: &mut BTreeMap<
             let c = reported.entry(terminates_ob).or_insert(0);
             *c += 1;
             if *c <= PER_OBLIGATION {
-                let small = minimise(js, 40, |cand| matches!(run(n, cand, false, Duration::from_millis(1500)), Outcome::Diverged { .. }));
+                let small = minimise(js, 20, |cand| matches!(run(n, cand, false, Duration::from_millis(1000)), Outcome::Diverged { .. }));
                 // D13 is the only known cause: the divergence disappears once the sized special-usage words are taken out
                 let without: Vec<J> = small.iter().filter(|j| !matches!(j, J::Is(_, t) if special_sized(t))).cloned().collect();
                 let terminates_ob = if without.len() < small.len() && !matches!(run(n, &without, false, Duration::from_millis(1500)), Outcome::Diverged { .. }) { D13 } else { terminates_ob };
@@ -551,6 +552,7 @@ fn c14_random_judgement_sets() {
     let t0 = Instant::now();
     let mut round = 0u64;
     let mut salt = 0u64;
+    let mut diverged = 0;
     // VX_C14_UNFILTERED=1: exploration mode, also runs the sets the D13 filter keeps out
     let unfiltered = std::env::var("VX_C14_UNFILTERED").map_or(false, |v| v == "1");
     while round < rounds {
@@ -561,8 +563,9 @@ fn c14_random_judgement_sets() {
         if !unfiltered && may_hit_d13(n, &js) { skipped += 1; if skipped <= 12 && std::env::var("VX_C14_DEBUG").is_ok() { println!("SKIP {}", show_js(n, &js)); } if skipped > 50 * rounds { break; } continue; }
         round += 1;
         cases += 1;
-        run_and_report(n, &js, Duration::from_secs(5), &mut reported, "unify.terminates");
-        if t0.elapsed() > Duration::from_secs(20 * scale()) { break; }
+        if run_and_report(n, &js, Duration::from_secs(5), &mut reported, "unify.terminates") { diverged += 1; }
+        // every divergence costs the whole budget: stop early when the tree diverges all the time
+        if diverged >= 4 || t0.elapsed() > Duration::from_secs(20 * scale()) { break; }
     }
     println!("NOTE c14: {skipped} generated sets skipped (packed encoding with a span typed by its own class: D13 shape)");
     println!("CASES c14_random_sets {cases}");
@@ -592,8 +595,13 @@ fn c14_named_shapes() {
     ];
     let mut reported = BTreeMap::new();
     let mut cases = 0u64;
+    let mut diverged = 0;
     for (n, js) in &sets {
-        for _ in 0..6 { run_and_report(*n, js, Duration::from_secs(5), &mut reported, "unify.terminates"); cases += 1; }
+        for _ in 0..6 {
+            cases += 1;
+            if run_and_report(*n, js, Duration::from_secs(5), &mut reported, "unify.terminates") { diverged += 1; break; }
+        }
+        if diverged >= 3 { break; }
     }
     println!("CASES c14_named_shapes {cases}");
 }
